@@ -1064,7 +1064,12 @@ pub fn raw_helpers(data: &[u8], ctl: &[u8; 16], d: &mut Dig) {
             d.count(dict::tokens(data).take(2000));
         }
         4 => {
-            let bias = u32::from_be_bytes([0, ctl[1], ctl[2], ctl[3]]);
+            // full 32-bit bias on half of the cases (a filled node pushed across u32::MAX must clamp, not overflow)
+            let bias = match ctl[9] & 3 {
+                0 | 1 => u32::from_be_bytes([0, ctl[1], ctl[2], ctl[3]]),
+                2 => u32::from_be_bytes([ctl[0], ctl[1], ctl[2], ctl[3]]),
+                _ => 0xFFFF_FF00 | ctl[3] as u32,
+            };
             let max = match ctl[4] % 4 {
                 0 => u32::MAX,
                 1 => 0x10FFFF,
